@@ -584,7 +584,9 @@ JudgeFile(tr, T, ev) ==
     Cl("C17.latin1", ev.op \in {"save", "exit"} /\ a.ext = "gwl" /\ a.haspath /\ ev.out = "ok",
        Latin1OK(ev.file.bytes) /\ (lines # <<>> => ev.file.bytes[Len(ev.file.bytes)] # LF)),
     Cl("C17.readback", ev.op \in {"save", "exit"} /\ a.ext = "gwl" /\ a.haspath /\ ev.out = "ok" /\ lines # <<>>,
-       SplitCRLF(ev.file.bytes, 1, <<>>) = lines /\ ev.file.lines = lines),
+       \* the harness' split at CRLF, and (for files of moderate size) the specification's own splitter
+       /\ ev.file.lines = lines
+       /\ (Len(ev.file.bytes) <= 4000 => SplitCRLF(ev.file.bytes, 1, <<>>) = lines)),
     Cl("C17.noext", ev.op = "save" /\ a.ext = "none", ev.out # "ok" /\ ~ev.file.exists),
     Cl("C17.nopath", ev.op = "exit" /\ ~a.haspath, ev.out = "ok" /\ ~ev.file.exists),
     Cl("C17.enter", ev.op = "enter", ev.out = "ok" /\ ev.wlen = 0),
